@@ -47,6 +47,14 @@ func (e *Exec) verifyFunction(fn *ssa.Function, sp *FuncSpec) {
 		}
 		st.pc = append(st.pc, g)
 	}
+	for _, ax := range sp.Axioms {
+		g, err := e.evalSpecBool(ax.Expr, env)
+		if err != nil {
+			e.errorf("%s: axiom %s: %v", name, ax.Label, err)
+			continue
+		}
+		st.pc = append(st.pc, g)
+	}
 	// vacuity guard: the precondition must be satisfiable
 	cov := e.oblige(st, name+"/cover:pre", append(append([]string{}, sp.Props...), sp.SafetyProps...), BoolLit(true), "precondition is satisfiable")
 	cov.Cover = true
